@@ -127,6 +127,7 @@ def _apply(fr, op):
             raise NotApplicable()
         p = _tmp('.h5' if h5 else '.fil')
         try:
+            _decoy_materialised()
             (fr.save_h5 if h5 else fr.save_fil)(p)
             new = stg.Frame(waterfall=p)
             new.data = np.array(new.data)      # detach from the reader before the file is removed
@@ -398,9 +399,27 @@ def _check_helpers(hdr, pay, arg, V, fr2=None, label='file'):
           % (dat.shape, m, n))
 
 
+_DECOY = {}
+
+
+def _decoy_materialised():
+    """Deterministic process history: just before every save under test ANOTHER synthetic frame -- other source name, other
+    geometry, other orientation -- materialises its Waterfall.  Whatever the library shares between the Waterfalls of
+    different frames (a header template, a reader) then last served that frame, in every process alike."""
+    import setigen as stg
+    try:
+        _DECOY['k'] = 1 - _DECOY.get('k', 0)
+        d = stg.Frame(fchans=5 + _DECOY['k'], tchans=3, df=1.5, dt=2.0, fch1=8.4e9, ascending=bool(_DECOY['k']), t_start=86400.0 * 7,
+                      source_name='DECOYSRC%d' % _DECOY['k'])
+        d.get_waterfall()
+    except Exception:
+        pass
+
+
 def _save_and_check(fr, fmt, V, cnt):
     """Save the real frame in one format and run oracles (i)-(iv) on the file."""
     snap = Snap(fr)
+    _decoy_materialised()
     site = 'Frame.save_%s' % fmt
     p = _tmp('.' + fmt)
     try:
